@@ -48,12 +48,16 @@ func C15(c *core.Ctx) error {
 	if !core.Quick(c.Tier) {
 		depth = 6
 	}
-	initials := []string{"empty", "vars", "preimport", "dstvars", "inpkg-empty", "inpkg-vars", "inpkg-dstvars", "inpkg-preimport", "latequal", "dupvars", "inpkg-latequal", "inpkg-dupvars"}
+	initials := []string{"empty", "vars", "preimport", "dstvars", "inpkg-empty", "inpkg-vars", "inpkg-dstvars", "inpkg-preimport", "latequal", "dupvars", "inpkg-latequal", "inpkg-dupvars", "replaced", "inpkg-replaced"}
 	var mu sync.Mutex
 	var total c15Result
 	outcomes := 0
 	core.ParallelFor(len(initials), func(i int) {
-		r := core.Run(c.Scratch, core.UserEnv(), 40*time.Minute, "", bin, initials[i], strconv.Itoa(depth))
+		d := depth
+		if strings.HasSuffix(initials[i], "replaced") {
+			d = 1 // building this state loads the replacement's package (slow): the state itself and one step from it
+		}
+		r := core.Run(c.Scratch, core.UserEnv(), 40*time.Minute, "", bin, initials[i], strconv.Itoa(d))
 		if core.ResourceFailure(r) {
 			c.Skip("driver run from initial state %s timed out or was killed", initials[i])
 			return
